@@ -112,6 +112,9 @@ def main():
     ids = sorted(p.name for p in (VERIF / 'seeded').iterdir() if (p / 'meta.json').exists())
     if only is not None:
         ids = [i for i in ids if i in only]
+    if os.environ.get('SEED_FILTER'):
+        import re
+        ids = [i for i in ids if re.search(os.environ['SEED_FILTER'], i)]
     mathy = [i for i in ids if 'math.py' in (VERIF / 'seeded' / i / 'patch.diff').read_text()]
     rest = [i for i in ids if i not in mathy]
     wts = []
